@@ -20,7 +20,9 @@ RULE = ("cases = (autocorrelation vector built from reflection coefficients and 
         "(Q block, order, strategy alias, perturbation) for lpc.kautocor / lpc.kcovar, "
         "(function, block, lag) for acorr/lag_matrix/toeplitz, (size 300..4200/9000 free or next to a "
         "multiple of a usual chunk size, function, lag, number type) for long blocks, (2..4 calls on "
-        "pulse/sparse/dense blocks, all results held and judged again at the end); oracle = exact residuals of the "
+        "pulse/sparse/dense blocks, all results held and judged again at the end), (in-place writes into the caller's own "
+        "unrelated filters / polynomials around 1..3 calls), (one block object, 2..9 calls with the caller editing the returned "
+        "tables / filters and the block in between); oracle = exact residuals of the "
         "defining normal equations, directly summed energies, exact singularity test of the "
         "leading minors; non-trivial = order >= 2 and no reflection coefficient of the exact "
         "solution is 0 (tables: length >= 2 and lag >= 1); distinct = distinct case hash")
@@ -32,6 +34,8 @@ ASSUMPTIONS = [
   "numpy strategies (lpc.nautocor, lpc.covar, lpc.autocor) are out of scope: numpy is not installed",
   "a returned filter / table is the result of its call for as long as the caller holds it: later calls of the same functions on other data must not change it (held_results)",
   "lag_matrix with max_lag >= len(blk) (documented ValueError) and empty blocks are outside the quantified domain",
+  "the quantifier is over r / blocks / orders only: what the program did before to objects of its own (filters it built and wrote into in place - Poly allows item assignment until hashed -, tables and filters it was given and edited, the block edited between calls) cannot change an answer; each call is judged against the content of its block at the time of the call (unrelated_history, reused_block); the global z is never written to",
+  "a function that changes the content of the block it analyses is reported (as levinson_durbin changing its lag list is)",
 ]
 
 
@@ -155,6 +159,22 @@ def _ks(lo, hi):
   return st.one_of(*(w(inside, 9) + [unit]))
 
 
+# 1 - |k| for reflection coefficients next to the unit circle: the prediction error shrinks by ~2 eps per
+# such step, so that two to four of them in a row push it many decades below r[0] without ever reaching 0
+_EPS = [Fraction(1, 10 ** 3), Fraction(1, 10 ** 5), Fraction(1, 10 ** 7), Fraction(1, 2 ** 30),
+        Fraction(1, 10 ** 9), Fraction(1, 2 ** 44)]
+_knear = st.tuples(st.sampled_from(_EPS), st.sampled_from([1, -1])).map(lambda t: t[1] * (1 - t[0]))
+
+
+def _ks_near():
+  """0..1 ordinary coefficients, a run of 1..4 coefficients within 1e-3 .. 2**-44 of +-1
+  (runs of 2..4 twice as often), then 1..3 ordinary ones: all strictly inside (-1, 1)."""
+  run = st.one_of(st.lists(_knear, min_size=1, max_size=4), st.lists(_knear, min_size=2, max_size=4),
+                  st.lists(_knear, min_size=3, max_size=4))
+  return st.tuples(st.lists(_kmost, max_size=1), run, st.lists(_kmost, min_size=1, max_size=3)).map(
+    lambda t: t[0] + t[1] + t[2])
+
+
 def _order(n, zero_ext=3):
   """order for a lag vector / block of length n: default, 1..n-1, or >= n."""
   opts = [st.none(), st.integers(n, n + zero_ext)]
@@ -172,6 +192,16 @@ def strat_ld(tier):
       src=st.just("k"), ks=st.just([Q(k) for k in ks]),
       r0=st.fractions(min_value=Fraction(1, 8), max_value=6, max_denominator=8).map(Q),
       order=_order(len(ks) + 1), seq=st.sampled_from(["list", "tuple"])))
+
+  def from_knear(ks):
+    # any scale of r: the equations are homogeneous
+    r0 = st.one_of(st.fractions(min_value=Fraction(1, 8), max_value=6, max_denominator=8),
+                   st.sampled_from([Fraction(1, 10 ** 6), Fraction(10 ** 6), Fraction(12345, 7), Fraction(1)]))
+    n = len(ks) + 1
+    return st.fixed_dictionaries(dict(
+      src=st.just("k"), ks=st.just([Q(k) for k in ks]), r0=r0.map(Q),
+      order=st.one_of(st.none(), st.none(), st.just(n - 1), st.integers(n, n + 2), st.integers(2, n - 1)),
+      seq=st.sampled_from(["list", "tuple"])))
 
   def from_data(blk):
     return st.fixed_dictionaries(dict(
@@ -191,10 +221,11 @@ def strat_ld(tier):
                    st.lists(st.one_of(qs(-2, 2, 3), st.integers(-2, 2).map(Q)), min_size=1, max_size=5)
                    ).map(lambda t: [t[0]] + t[1])
   # a selector (not a nested one_of, whose branches Hypothesis would flatten and re-weight)
-  return st.sampled_from(["k", "k", "k", "data", "data", "data", "free"]).flatmap(
+  return st.sampled_from(["k", "k", "k", "data", "data", "data", "free", "knear", "knear"]).flatmap(
     lambda s: _ks(1, pmax).flatmap(from_k) if s == "k" else
-    (st.lists(_sample, min_size=2, max_size=lmax).flatmap(from_data) if s == "data" else
-     free.flatmap(from_free)))
+    (_ks_near().flatmap(from_knear) if s == "knear" else
+     (st.lists(_sample, min_size=2, max_size=lmax).flatmap(from_data) if s == "data" else
+      free.flatmap(from_free))))
 
 
 def run_ld(case):
@@ -211,7 +242,11 @@ def run_ld(case):
   p = len(r_in) - 1 if order is None else order
   rr = [fr(v) for v in r_in[:p + 1]]
   rr = rr + [Fraction(0)] * (p + 1 - len(rr))
-  labels = ["src:" + src,
+  if src == "k" and any(abs(k) > Fraction(99, 100) and abs(k) != 1 for k in case["ks"]):
+    src_near = ["near-unit reflections"]
+  else:
+    src_near = []
+  labels = src_near + ["src:" + src,
             "order:default" if order is None else
             ("order:zero-extended" if order >= len(r_in) else
              ("order:full" if order == len(r_in) - 1 else "order:truncating"))]
@@ -252,6 +287,18 @@ def run_ld(case):
     labels.append("indefinite r")
   if err == 0:
     labels.append("zero error")
+  # the denominators of the recursion are the errors E_0 = r[0], E_m = E_{m-1} (1 - k_m^2), m < p:
+  # how far below r[0] does the smallest of them lie (none is 0 here)
+  E, low = rr[0], Fraction(1)
+  for k in ks[:-1]:
+    E *= 1 - k * k
+    low = min(low, abs(E / rr[0]))
+  if low <= Fraction(1, 10 ** 6):
+    labels.append("a denominator of the recursion is <= 1e-6 r[0], not 0")
+  if low <= Fraction(1, 10 ** 12):
+    labels.append("a denominator of the recursion is <= 1e-12 r[0], not 0")
+  if low <= Fraction(1, 10 ** 18):
+    labels.append("a denominator of the recursion is <= 1e-18 r[0], not 0")
   nt = p >= 2 and all(k != 0 for k in ks)
   return {"nontrivial": nt, "labels": labels + ["order %d" % min(p, 9)]}
 
@@ -395,6 +442,11 @@ def run_kauto(case):
   return {"nontrivial": p >= 2 and all(k != 0 for k in ks), "labels": labels + ["order %d" % min(p, 9)]}
 
 
+# the covariance equations are homogeneous as well: very quiet and very loud blocks have the predictor of
+# the same block at amplitude 1 (and the recursion returns for the one exactly when it returns for the other)
+_scale = st.sampled_from([1, 1, 1, Fraction(1, 10 ** 7), Fraction(1, 3 * 10 ** 9), 10 ** 6, Fraction(1, 2 ** 40)])
+
+
 def strat_kcovar(tier):
   lmax = 9 if tier == "quick" else 12
 
@@ -406,9 +458,18 @@ def strat_kcovar(tier):
       blk=st.just(blk),
       order=st.one_of(*(w(low, 3) + [st.integers(1, n - 1), st.none()])),
       name=st.sampled_from(_KCOV + ["kcovar"] * 3), how=st.sampled_from(["attr", "item"]),
-      seq=st.sampled_from(["list", "tuple", "deque maxlen"]), kw=st.booleans()))
+      seq=st.sampled_from(["list", "tuple", "deque maxlen"]), kw=st.booleans(), scale=_scale))
   fixed = st.integers(6, lmax).flatmap(lambda n: st.lists(_sample, min_size=n, max_size=n))
-  return st.one_of(*([st.lists(_sample, min_size=3, max_size=lmax)] + w(fixed, 2))).flatmap(withorder)
+
+  def highorder(blk):
+    # rows outnumber the order several times: the recursion goes on to orders the short blocks never reach
+    return st.fixed_dictionaries(dict(
+      blk=st.just(blk), order=st.integers(5, 9), name=st.sampled_from(_KCOV + ["kcovar"] * 3),
+      how=st.sampled_from(["attr", "item"]), seq=st.sampled_from(["list", "tuple", "deque maxlen"]),
+      kw=st.booleans(), scale=_scale))
+  mid = st.integers(24, 44).flatmap(lambda n: st.lists(_sample, min_size=n, max_size=n))
+  short = st.one_of(*([st.lists(_sample, min_size=3, max_size=lmax)] + w(fixed, 2))).flatmap(withorder)
+  return st.sampled_from(["short"] * 6 + ["mid"]).flatmap(lambda k: short if k == "short" else mid.flatmap(highorder))
 
 
 def kcovar_prediction(phi, p):
@@ -426,6 +487,9 @@ def kcovar_prediction(phi, p):
 
 
 def run_kcovar(case):
+  sc = Fraction(case.get("scale", 1))
+  if sc != 1:
+    case = dict(case, blk=[Q(fr(v) * sc) for v in case["blk"]])
   x = [fr(v) for v in case["blk"]]
   n = len(x)
   order = case["order"]
@@ -450,6 +514,12 @@ def run_kcovar(case):
     labels.append("raised ZeroDivisionError")
     return {"nontrivial": False, "labels": labels}
   labels.append("returned")
+  if sc < 1:
+    labels.append("quiet block (amplitude <= 1e-7), returned")
+  elif sc > 1:
+    labels.append("loud block (amplitude 1e6), returned")
+  if p >= 6:
+    labels.append("returned order>=6")
   a = coeffs_of(filt, p, what)
   for i in range(1, p + 1):
     res = sum(a[j] * phi[i][j] for j in range(p + 1))
@@ -577,11 +647,13 @@ def strat_held(tier):
   return st.lists(call, min_size=2, max_size=4)
 
 
-def _held_call(c):
-  """-> (result, None) or (None, label) when an allowed exception was raised."""
+def _held_call(c, arg=None):
+  """-> (result, None) or (None, label) when an allowed exception was raised.
+  arg: the block object to hand over (default: a fresh one built from the case)."""
   fn, p = c["fn"], c["order"]
   x = [fr(v) for v in c["blk"]]
-  arg = _seq(c["seq"], c["blk"])
+  if arg is None:
+    arg = _seq(c["seq"], c["blk"])
   if fn == "acorr":
     return acorr(arg, p), None
   if fn == "lag_matrix":
@@ -681,6 +753,201 @@ def run_held(case):
   return {"nontrivial": len(held) >= 2 and nz >= 1, "labels": labels}
 
 
+
+# --------------------------- earlier history of unrelated objects (process-wide state)
+# What a program may have done, before and between the calls under test, to objects that are
+# its own: filters it built (with or without a denominator, by arithmetic on z, as z ** -k), called, and
+# whose polynomials it wrote into in place (Poly: "item set is allowed" until the instance is hashed),
+# free-standing Poly objects.  The global ``z`` itself is never written to: the library uses it.
+_OPS = ["fir.den", "fir.den", "fir.num", "unit.den", "unit.num", "iir.den", "iir.num",
+        "arith.den", "arith.num", "zpow.den", "zpow.num", "poly"]
+
+
+def _unrelated(o):
+  """Build one unrelated object as the op says, optionally use it, write one coefficient in place."""
+  from audiolazy import ZFilter, z, Poly
+  c, d, i, v = list(o["c"]), list(o["d"]), o["i"], o["v"]
+  kind, _, side = o["op"].partition(".")
+  if kind == "poly":
+    pol = Poly(c)
+    pol[i] = v
+    return
+  if kind == "fir":
+    f = ZFilter(c)                       # built without a denominator
+  elif kind == "unit":
+    f = ZFilter(1)
+  elif kind == "iir":
+    f = ZFilter(c, [1] + d)              # built with an explicit denominator
+  elif kind == "arith":
+    f = c[0] + sum(ck * z ** -k for k, ck in enumerate(c[1:], 1))
+    if side == "den":
+      f = f / (1 + d[0] * z ** -1)
+  else:
+    f = z ** -(1 + i % 3)
+  if o["run"] in ("before", "both"):
+    list(f(list(o["x"])))
+  if side == "den":
+    f.denpoly[1 + i % 3] = v             # feedback term written in place
+  else:
+    f.numpoly[i] = v
+  if o["run"] in ("after", "both"):
+    list(f(list(o["x"])))
+
+
+def strat_unrelated(tier):
+  small = st.one_of(qs(-2, 2, 4), st.integers(-2, 2).map(Q))
+  nz = small.filter(lambda v: v != 0)
+  op = st.fixed_dictionaries(dict(
+    op=st.sampled_from(_OPS), c=st.tuples(nz, small, small).map(list) | st.tuples(nz, small).map(list),
+    d=st.lists(qs(-1, 1, 4), min_size=1, max_size=2), i=st.integers(0, 3), v=nz,
+    run=st.sampled_from(["no", "no", "before", "after", "both"]), x=st.lists(small, min_size=1, max_size=4)))
+  dense = st.lists(_sample, min_size=4, max_size=8)
+  call = st.fixed_dictionaries(dict(
+    fn=st.sampled_from(["kcovar", "kcovar", "kautocor", "kautocor", "levinson", "levinson", "levinson_default",
+                        "acorr", "lag_matrix"]),
+    blk=dense, order=st.integers(1, 3), seq=st.sampled_from(["list", "tuple", "deque maxlen"])))
+  # calls may precede the writes as well: their results are held and judged again at the end
+  return st.tuples(st.lists(call, max_size=1), st.lists(op, min_size=1, max_size=3),
+                   st.lists(call, min_size=1, max_size=2), st.lists(op, max_size=1)).map(
+                     lambda t: t[0] + t[1] + t[2] + t[3])
+
+
+def run_unrelated(case):
+  held, labels, written = [], [], set()
+  for c in case:
+    if "op" in c:
+      _unrelated(c)
+      written.add(c["op"])
+      continue
+    res, why = _held_call(c)
+    if res is None:
+      labels.append(why)
+      continue
+    a = _held_judge(c, res, "right after the call (earlier: in-place writes into %s of the caller's own "
+                    "objects)" % (sorted(written) or "nothing"))
+    held.append((c, res, a))
+  nz = 0
+  for c, res, a in held:
+    a2 = _held_judge(c, res, "at the end, after in-place writes into %s of the caller's own objects"
+                     % sorted(written))
+    if a2 != a:
+      raise Violation("%s(%s, %d): coefficients were %s right after the call and are %s at the end"
+                      % (c["fn"], show(c["blk"]), c["order"], a, a2))
+    nz += a is not None
+  labels += ["wrote " + k for k in sorted(written)]
+  if case and "op" not in case[0]:
+    labels.append("a result held across the writes")
+  return {"nontrivial": nz >= 1, "labels": labels + ["held results: %d" % len(held)]}
+
+
+# ------------------------- one block object analysed again and again, answers edited
+_FAMILY = {"acorr": "acorr", "kautocor": "acorr", "lag_matrix": "lagm", "kcovar": "lagm"}
+
+
+def strat_reused(tier):
+  fns = ["acorr", "acorr", "kautocor", "kautocor", "lag_matrix", "kcovar", "kcovar"]
+  fac = st.sampled_from([Fraction(10001, 10000), Fraction(99, 100), Fraction(1, 2), Fraction(-1), Fraction(3)]).map(Q)
+
+  def steps(p):
+    call = st.fixed_dictionaries(dict(do=st.just("call"), fn=st.sampled_from(fns),
+                                      order=st.one_of(st.just(p), st.just(p), st.just(p), st.integers(1, 3))))
+    edit = st.fixed_dictionaries(dict(do=st.just("edit_result"), i=st.integers(0, 3), j=st.integers(0, 3), f=fac))
+    poke = st.fixed_dictionaries(dict(do=st.just("edit_block"), i=st.integers(0, 8),
+                                      v=_sample.filter(lambda v: v != 0)))
+    again = st.tuples(call, edit).map(lambda t: (t[0], t[1], t[0]))      # the very same question after the edit
+    motif = st.one_of(again, again.map(tuple), st.tuples(call, edit, call), st.tuples(call, poke, call),
+                      st.tuples(call, call), st.tuples(call, edit, poke, call))
+    return st.lists(motif, min_size=1, max_size=3).map(lambda ms: [s for m in ms for s in m])
+  return st.fixed_dictionaries(dict(
+    blk=st.lists(_sample, min_size=4, max_size=9), seq=st.sampled_from(["list", "list", "tuple", "deque maxlen"]),
+    steps=st.integers(1, 3).flatmap(steps)))
+
+
+def _edit_result(res, s):
+  """The caller changes, in place, the answer he was given.  -> what was edited or None."""
+  if isinstance(res, list) and res and isinstance(res[0], list):      # lag_matrix
+    row = res[s["i"] % len(res)]
+    row[s["j"] % len(row)] = row[s["j"] % len(row)] * s["f"] + 1
+    return "table"
+  if isinstance(res, list) and res:                                    # acorr: white-noise correction / lag window
+    res[s["i"] % len(res)] = res[s["i"] % len(res)] * s["f"] + 1
+    return "table"
+  if hasattr(res, "numpoly"):                                          # a returned filter: pruned / rescaled in place
+    which = s["j"] % 3
+    if which == 0:
+      res.error = res.error * s["f"] + 1
+    elif which == 1:
+      res.denpoly[1] = s["f"]
+    else:
+      i = 1 + s["i"] % 3
+      res.numpoly[i] = res.numpoly[i] * s["f"] + 1
+    return "filter"
+  return None
+
+
+def run_reused(case):
+  model = list(case["blk"])                  # what the caller knows to be in the block
+  obj = _seq(case["seq"], model)             # the one block object of this case
+  n = len(model)
+  held, labels = [], []
+  last, pending, repeats, frepeats, after_poke, pokes = None, None, 0, 0, 0, 0
+  for s in case["steps"]:
+    if s["do"] == "edit_block":
+      if case["seq"] == "tuple":
+        continue
+      obj[s["i"] % n] = s["v"]
+      model[s["i"] % n] = s["v"]
+      pending, pokes = None, pokes + 1
+      continue
+    if s["do"] == "edit_result":
+      if last is None:
+        continue
+      k, (c, res, a) = last, held[last]
+      kind = _edit_result(res, s)
+      if kind is not None:
+        held[k] = None                        # the caller's own numbers now
+        # a table feeds every function of its family; a filter is the answer of its own function only
+        pending, last = (_FAMILY[c["fn"]] if kind == "table" else c["fn"], c["order"], kind), None
+      continue
+    c = dict(fn=s["fn"], blk=list(model), order=s["order"], seq=case["seq"])
+    res, why = _held_call(c, arg=obj)
+    if list(obj) != model:
+      raise Violation("%s(%s, %d) changed the content of the block it was given: %s"
+                      % (c["fn"], show(model), c["order"], show(obj)))
+    if pending == (_FAMILY[c["fn"]], c["order"], "table"):
+      repeats += 1
+    if pending == (c["fn"], c["order"], "filter"):
+      frepeats += 1
+    if pokes:
+      after_poke += 1
+    pending = None
+    if res is None:
+      labels.append(why)
+      last = None
+      continue
+    a = _held_judge(c, res, "right after the call, call no. %d on this block object" % (len(held) + 1))
+    held.append((c, res, a))
+    last = len(held) - 1
+  nz = 0
+  for h in held:
+    if h is None:
+      continue
+    c, res, a = h
+    a2 = _held_judge(c, res, "at the end (same block object used for every call)")
+    if a2 != a:
+      raise Violation("%s(%s, %d): coefficients were %s right after the call and are %s at the end"
+                      % (c["fn"], show(c["blk"]), c["order"], a, a2))
+    nz += a is not None
+  if repeats:
+    labels.append("same question asked again after the caller edited the answer")
+  if frepeats:
+    labels.append("same filter asked again after the caller edited the one he was given")
+  if after_poke:
+    labels.append("call after the block was edited in place")
+  labels.append("seq:" + case["seq"])
+  return {"nontrivial": len([h for h in held if h is not None]) >= 1, "labels": labels + ["calls: %d" % min(len(held), 6)]}
+
+
 _titem = st.one_of(qs(), st.integers(-4, 4), st.floats(allow_nan=False, allow_infinity=False, width=16))
 
 
@@ -760,17 +1027,21 @@ def run_tables(case):
 CLAUSES = [
   Clause("levinson", strat_ld, run_ld, quick=2000, thorough=30000,
          floors={"src:k": .12, "src:data": .12, "src:free": .04, "order:zero-extended": .05,
-                 "order:truncating": .05, "singular minor: ParCorError": .02},
+                 "order:truncating": .05, "singular minor: ParCorError": .02, "near-unit reflections": .02,
+                 "a denominator of the recursion is <= 1e-12 r[0], not 0": .01},
          doc="levinson_durbin: monic, Toeplitz normal equations, error = sum a[j] r[j]; "
-             "ParCorError only when a leading minor is singular"),
+             "ParCorError only when a leading minor is singular (also for vectors built from runs of reflection "
+             "coefficients within 1e-3 .. 2**-44 of +-1: denominators many decades below r[0] but not 0)"),
   Clause("kautocor", strat_kauto, run_kauto, quick=1000, thorough=15000,
          floors={"order<len": .15, "competitor strictly worse": .2, "alias": .1},
          doc="lpc.kautocor: normal equations on directly summed lags, error = energy of "
              "a * zero-extended block, zero gradient, never beaten by a generated competitor"),
   Clause("kcovar", strat_kcovar, run_kcovar, quick=1200, thorough=20000,
-         floors={"returned": .2, "returned order>=2": .08},
+         floors={"returned": .2, "returned order>=2": .08, "returned order>=6": .02,
+                 "quiet block (amplitude <= 1e-7), returned": .05},
          doc="lpc.kcovar when it returns: covariance normal equations and error = residual "
-             "energy over n >= p"),
+             "energy over n >= p (blocks of 3..9/12 samples, and of 24..44 samples with orders 5..9; amplitudes "
+             "from 2**-40 to 1e6)"),
   Clause("large_tables", strat_large, run_large, quick=24, thorough=300,
          doc="acorr / lag_matrix on blocks of 100..260 samples with lags 6..16 (tables far larger than any small-size "
              "code path) still equal their defining sums; kcovar on such a block satisfies its normal equations"),
@@ -785,6 +1056,22 @@ CLAUSES = [
          doc="2..4 calls in a row (kcovar, kautocor, levinson_durbin, acorr, lag_matrix) on pulse / sparse / "
              "dense blocks; every result is kept and must still satisfy the equations of its own block after "
              "the later calls"),
+  Clause("unrelated_history", strat_unrelated, run_unrelated, quick=500, thorough=6000,
+         floors={"wrote fir.den": .05, "wrote unit.den": .03, "wrote arith.num": .03, "wrote zpow.num": .03,
+                 "a result held across the writes": .1},
+         doc="1..4 in-place writes into polynomials of the caller's own, unrelated objects (filters built without / "
+             "with a denominator, by arithmetic on z, z ** -k, free Poly objects; optionally called before / after) "
+             "around 1..3 calls of kcovar / kautocor / levinson_durbin / acorr / lag_matrix: every result satisfies "
+             "the equations of its block right after its call and at the end"),
+  Clause("reused_block", strat_reused, run_reused, quick=600, thorough=8000,
+         floors={"same question asked again after the caller edited the answer": .1,
+                 "same filter asked again after the caller edited the one he was given": .08,
+                 "call after the block was edited in place": .08},
+         doc="one block object (list / tuple / deque) handed to 2..9 calls of acorr / kautocor / lag_matrix / kcovar; "
+             "between calls the caller edits in place the table / the filter (coefficient, error attribute, denominator) "
+             "he was given or the block itself; every call is "
+             "judged against the content of the block at the time of the call, untouched results again at the end; "
+             "no call may change the block"),
   Clause("tables", strat_tables, run_tables, quick=1000, thorough=15000,
          floors={"acorr": .1, "lag_matrix": .1, "toeplitz": .06, "lag>=len": .02},
          doc="acorr / lag_matrix / toeplitz equal their defining sums / table"),
